@@ -344,12 +344,39 @@ pub fn object_probes(w: &mut World, found: &BTreeMap<u64, usize>, exact_enumerat
         }
         checked += 1;
     }
-    for p in [8usize, 0x10_0000, 0x7fff_ffff_f000, w.spec.cfg.meta_base + 4096] {
+    // addresses outside [heap_start, heap_end): fixed ones, the heap boundaries, and images of
+    // live objects shifted by large powers of two (index aliasing)
+    let layout = mmtk::util::heap::vm_layout::vm_layout();
+    let (hs, he) = (layout.heap_start.as_usize(), layout.heap_end.as_usize());
+    let mut outside: Vec<usize> = vec![8usize, 0x10_0000, 0x7fff_ffff_f000, w.spec.cfg.meta_base + 4096, usize::MAX & !7];
+    outside.push(he);
+    outside.push(he + 4096);
+    outside.push(hs - 8);
+    for k in [1usize, 2, 3, 5, 8, 13, 21] {
+        outside.push(he.wrapping_add(k << 41) & !7);
+        outside.push(he.wrapping_add(k << 32) & !7);
+    }
+    for (i, (a, _)) in expect.iter().enumerate() {
+        if i % 16 == 0 {
+            for sh in [45usize, 46, 47, 48, 52, 63] {
+                outside.push(*a ^ (1usize << sh));
+                outside.push(a.wrapping_add(1usize << sh));
+            }
+        }
+    }
+    for p in outside {
+        if p >= hs && p < he {
+            continue;
+        }
         let a = unsafe { Address::from_usize(p) };
         let name = introspect::sft_name(a);
         if name != "empty" {
-            violation("C31", "outside-address-in-space", format!("address {:#x} outside the heap resolves to space '{}'", p, name));
+            violation("C31", "outside-address-in-space", format!("address {:#x} outside the heap [{:#x},{:#x}) resolves to space '{}'", p, hs, he, name));
         }
+        if let Some(ix) = introspect::descriptor_index(a) {
+            violation("C31", "outside-address-has-descriptor", format!("address {:#x} outside the heap [{:#x},{:#x}) has the space descriptor of space index {}", p, hs, he, ix));
+        }
+        w.count("c31_outside_addresses_checked");
         if let Some(r) = obj::raw_to_ref(p) {
             if mm::is_in_mmtk_spaces(r) {
                 violation("C31", "outside-address-in-space", format!("is_in_mmtk_spaces({:#x}) is true outside the heap", p));
